@@ -31,7 +31,7 @@ pub struct ReplaySpec {
     variant: u32,
 }
 
-pub const BASES: usize = 6;
+pub const BASES: usize = 7;
 pub const ENUM_SPACE: u64 = (BASES * 8 * 14 * 3) as u64;
 
 pub fn run_enum(ctx: &mut Ctx) {
@@ -81,6 +81,9 @@ async fn run_async(ctx: &mut Ctx, enumerate: bool) {
         let mut c = NodeCfg::new(8 + i);
         c.request_timeout_ms = 1000;
         c.request_retries = if enumerate { 1 } else { 1 + ctx.tape.choose(2) as u8 };
+        // base 6: X's record advertises another port than it sends from (NATed / stale record), so
+        // the victim accepts the handshake but reports the record as unverifiable
+        c.advertise_other_port = base == 6 && i == 1;
         w.add_node(c).await;
     }
     if !enumerate {
@@ -91,7 +94,7 @@ async fn run_async(ctx: &mut Ctx, enumerate: bool) {
     // ---- base exchange (V = n0, X = n1, Y = n2)
     let knows = matches!(base, 1 | 4);
     match base {
-        0 | 1 => w.schedule(0, Ev::Custom(X::Submit { node: 1, peer: 0, with_enr: true })),
+        0 | 1 | 6 => w.schedule(0, Ev::Custom(X::Submit { node: 1, peer: 0, with_enr: true })),
         2 => w.schedule(0, Ev::Custom(X::Submit { node: 0, peer: 1, with_enr: true })),
         3 => w.schedule(0, Ev::Custom(X::Submit { node: 0, peer: 1, with_enr: false })),
         4 => {
